@@ -63,3 +63,14 @@ pub fn fetch_add_counting(a: &AtomicUsize, v: usize, _o: Ordering) -> usize {
         old
     }
 }
+
+// Assumed contract of Arc (ledger A2/A3): dropping the LAST reference releases the value. None of the
+// functions verified with this stub may do that (old snapshots are released by WriteGuard::store, which
+// is replaced by its contract here), so the stub only counts such drops and leaks the allocation; the
+// harnesses assert the count stays 0 (for the dispatcher this is C03 "never frees").
+pub static mut LAST_REF_DROPS: usize = 0;
+pub fn arc_drop_slow_stub<T: ?Sized, A: std::alloc::Allocator>(_a: &mut std::sync::Arc<T, A>) {
+    unsafe {
+        LAST_REF_DROPS += 1;
+    }
+}
